@@ -3,9 +3,16 @@
 From Coq Require Import QArith Qreals Reals Lra Lia List Bool Relations.
 From MSDM Require Import base.Num base.NumInst base.NumR base.Transfer model.MDP model.VI model.PolicyEval
      theory.Bellman theory.VITheory theory.VITransfer theory.PolicyEvalTheory theory.PolicyEvalUndisc
-     theory.PolicyEvalTransfer.
+     theory.PolicyEvalLimit theory.PolicyEvalTransfer.
 Import ListNotations.
 Local Open Scope R_scope.
+
+Lemma untab_map_Q2R (l : list Q) s : untab (map Q2R l) s = Q2R (untab l s).
+Proof.
+  unfold untab. revert s. induction l as [|x l IH]; intros s.
+  - destruct s; simpl; unfold Q2R; simpl; lra.
+  - destruct s; simpl; [reflexivity|apply IH].
+Qed.
 
 Section Main.
 Variables (nS nA : nat) (P Rw : list (list (list Q))) (av : list (list bool)) (ab : list bool)
@@ -144,12 +151,12 @@ Theorem main_undisc_neginf s :
   (s < nS)%nat -> (eV oR s = NInf <-> reaches_negative_class mR piR s).
 Proof. apply (eval_undisc_neginf mR piR oR tR chkRu). Qed.
 
-Theorem main_undisc_finite_partial s :
+Theorem main_undisc_finite s :
   (s < nS)%nat -> ~ reaches_negative_class mR piR s ->
   exists v, eV oR s = Fin v /\
     Rabs (v - (rpi mR piR s + sumf nS (fun z => Pt mR piR (accM mR piR) s z * Vf oR z))) <= Q2R (tolV tl) /\
     forall z, (z < nS)%nat -> 0 < Ppi mR piR s z -> exists w, eV oR z = Fin w.
-Proof. apply (eval_undisc_finite_partial mR piR oR tR chkRu). Qed.
+Proof. apply (eval_undisc_finite mR piR oR tR chkRu). Qed.
 
 Theorem main_undisc_absorbing_zero s :
   (s < nS)%nat -> absorbing mR s = true -> eV oR s = Fin 0.
@@ -187,7 +194,7 @@ Proof. apply (eval_undisc_initial_value mR piR oR tR chkRu). Qed.
 
 (* off the -inf set the k-step expected total reward is squeezed between any non-positive exact
    solution of the transient system and 0, and decreases in k: it has a finite limit *)
-Theorem main_undisc_kstep_lower_partial (W : nat -> R) :
+Theorem main_undisc_kstep_lower (W : nat -> R) :
   (forall s, (s < nS)%nat -> neginf mR piR (accM mR piR) s = false -> W s <= 0) ->
   (forall s, (s < nS)%nat -> neginf mR piR (accM mR piR) s = false ->
      W s = rpi mR piR s + sumf nS (fun z => Pt mR piR (accM mR piR) s z * W z)) ->
@@ -199,8 +206,60 @@ Proof.
   assert (HF : neginf mR piR (accM mR piR) s = false).
   { destruct (neginf mR piR (accM mR piR) s) eqn:E; [|reflexivity].
     apply (neginf_spec mR piR Wfb Wpb s Hs) in E. contradiction. }
-  destruct (undisc_kstep_lower_partial mR piR Wfb Wpb Hnp W HW0 HWex k s Hs HF) as [H1 H2].
+  destruct (undisc_kstep_lower mR piR Wfb Wpb Hnp W HW0 HWex k s Hs HF) as [H1 H2].
   destruct (Vnu_decreasing mR piR Wfb Wpb Hnp k s Hs) as [H3 _]. auto.
+Qed.
+
+(* on the -inf set the k-step expected total reward really diverges to -inf *)
+Theorem main_undisc_kstep_diverges s :
+  (s < nS)%nat -> eV oR s = NInf ->
+  forall M, exists K, forall k, (K <= k)%nat -> Vnu mR piR k s < - M.
+Proof.
+  intros Hs Hv.
+  pose proof (undisc_clauses mR piR oR tR chkRu) as (Wfb & Wpb & _ & _ & Hnp & _).
+  apply (undisc_kstep_diverges mR piR Wfb Wpb Hnp s Hs). now apply main_undisc_neginf.
+Qed.
+
+(* off the -inf set it converges to any solution of the transient system (which is therefore unique) *)
+Theorem main_undisc_kstep_converges (W : nat -> R) :
+  (forall s, (s < nS)%nat -> neginf mR piR (accM mR piR) s = false ->
+     W s = rpi mR piR s + sumf nS (fun z => Pt mR piR (accM mR piR) s z * W z)) ->
+  forall s, (s < nS)%nat -> ~ reaches_negative_class mR piR s ->
+    Un_cv (fun k => Vnu mR piR k s) (W s).
+Proof.
+  intros HW s Hs Hno.
+  pose proof (undisc_clauses mR piR oR tR chkRu) as (Wfb & Wpb & _ & _ & Hnp & _).
+  apply (undisc_kstep_converges mR piR Wfb Wpb Hnp W HW s Hs).
+  destruct (neginf mR piR (accM mR piR) s) eqn:E; [|reflexivity].
+  apply (neginf_spec mR piR Wfb Wpb s Hs) in E. contradiction.
+Qed.
+
+(* with the absorption-time certificate tau (checked by c02_tau on the harness' exact solve): the
+   finite reported values are within tolV * tau of THE expected total reward W = lim_k Vnu k *)
+Theorem main_undisc_expected_total_reward (tau : list Q) :
+  @c02_tau Q NumQ mQ piQ tau = true -> 0 <= Q2R (tolV tl) ->
+  exists W : nat -> R,
+    (forall s, (s < nS)%nat -> ~ reaches_negative_class mR piR s -> Un_cv (fun k => Vnu mR piR k s) (W s)) /\
+    (forall s, (s < nS)%nat -> ~ reaches_negative_class mR piR s ->
+       exists v, eV oR s = Fin v /\ Rabs (v - W s) <= Q2R (tolV tl) * Q2R (untab tau s)).
+Proof.
+  intros Htau Ht0. rewrite c02_tau_transfer in Htau.
+  pose proof (undisc_clauses mR piR oR tR chkRu) as (Wfb & Wpb & _ & _ & Hnp & _ & _ & Hv & _).
+  pose proof (c02_tau_spec mR piR _ Htau) as Hts.
+  assert (HF : forall s, (s < nS)%nat -> ~ reaches_negative_class mR piR s ->
+               neginf mR piR (accM mR piR) s = false).
+  { intros s Hs Hno. destruct (neginf mR piR (accM mR piR) s) eqn:E; [|reflexivity].
+    apply (neginf_spec mR piR Wfb Wpb s Hs) in E. contradiction. }
+  destruct (undisc_values_close mR piR Wfb Wpb Hnp (untab (map Q2R tau)) Hts (Vf oR) (Q2R (tolV tl)) Ht0)
+    as (W & _ & Hcv & Hclose).
+  { intros x Hx HFx. unfold u_v in Hv. rewrite forallbn_spec in Hv. specialize (Hv x Hx).
+    rewrite HFx in Hv. now apply MSDM.base.NumR.ncloseb_R in Hv. }
+  exists W. split.
+  - intros s Hs Hno. apply Hcv; auto.
+  - intros s Hs Hno. destruct (main_undisc_finite s Hs Hno) as (v & Hv' & _).
+    exists v. split; [exact Hv'|]. specialize (Hclose s Hs (HF s Hs Hno)).
+    unfold PolicyEval.Vf in Hclose. rewrite Hv' in Hclose. simpl in Hclose.
+    rewrite <- untab_map_Q2R. exact Hclose.
 Qed.
 
 End Undisc.
